@@ -252,6 +252,21 @@ prop("C03", "exploration",
      [{"test": "TestC03", "savelast": True, "quick": {"checks": 5000, "shards": 4, "timeout": 900},
        "thorough": {"checks": 50000, "shards": 16, "timeout": 3000}}])
 
+prop("C20", "exploration",
+     "cases = single-instruction probes on every fork: (30%) VRJNAL over a stored string whose length word is 0..2^20 (5%: "
+     "2^24, 2^32, 2^62); (30%) the four memory-reading key-registration opcodes with a name / index key of 0..2^20 bytes "
+     "lying in allocated memory; (20%) the three Artela precompiles with payloads of 0..256 KiB; (20%) any standard or "
+     "journal opcode with generated (hostile) operands over storage holding string length words up to 2^20. Work meter: a "
+     "debug tracer records, per step, the cumulative number of state reads (counting StateDB wrapper) and "
+     "runtime.MemStats.TotalAlloc; an instruction's work is the difference to the next step of the same frame, its charge "
+     "the gas actually consumed. Bounds reads <= a*gas+b, bytes <= c*gas+d with a, b, c, d CALIBRATED, not guessed: the "
+     "same meter runs 92 probe programs of standard opcodes / precompiles (memory expansion, copies, hashing, logs, "
+     "storage, account reads, identity/sha256 with 0..256 KiB) on the UPSTREAM interpreter and a, c are 4x the worst ratios "
+     "observed (reported in the evidence). Instructions beyond 2e5 reads are cut off and reported. Non-trivial = a length "
+     ">= 2^20 / a large payload, or an instruction that touched >= 2 state entries.",
+     [{"test": "TestC20", "quick": {"checks": 1500, "shards": 4, "timeout": 900},
+       "thorough": {"checks": 15000, "shards": 16, "timeout": 3000}}])
+
 # ---------------------------------------------------------------------------
 # Text for MANIFEST.json (gen_manifest.py)
 
@@ -276,6 +291,17 @@ MANIFEST_TEXT = {
         "level_note": "Trusted: upstream core/vm as oracle; the recorder copies (gas, cost) at CaptureState/CaptureFault, "
                       "CaptureEnter/Exit, CaptureStart/End.",
         "technique": "property-based differential testing of step-level gas with generated gas-limit sweeps (rapid)",
+    },
+    "C20": {
+        "level_text": "Metamorphic / calibrated work metering under property-based probe generation: per-instruction state reads "
+                      "and allocated bytes are measured and compared with bounds calibrated on the upstream interpreter's "
+                      "own standard opcodes.",
+        "design_ref": "DESIGN.md section 4, C20",
+        "level_note": "'Bounded by a fixed multiple' is decided relative to 4x the worst reads-per-gas and bytes-per-gas ratio of "
+                      "the protocol's own opcodes (worst case: Frontier EXTCODECOPY/EXTCODESIZE loading 20 KB of code for 20 "
+                      "gas); an amplification below that is not flagged. Wall-clock time is never a verdict. Hashing work is "
+                      "covered through allocation / read counts only.",
+        "technique": "property-based single-instruction probes with a calibrated work meter (rapid)",
     },
     "C03": {
         "level_text": "Robustness property testing / fuzzing with a validity predicate: hostile generated byte-code, operands, "
